@@ -124,13 +124,15 @@ func genString(r *rng.R, fam string) (string, int) {
 			case 1:
 				sb.WriteString("\r\n")
 			case 2:
-				sb.WriteString(rng.Pick(r, []string{"\r", " ", " ", "\n\n", "\v", "\f", "\u0085"}))
+				sb.WriteString(rng.Pick(r, []string{"\r", " ", " ", "\n\n", "\v", "\f", "\u0085", "\u2028", "\u2029", "\u0085"}))
 			case 3:
 				sb.WriteString(" ")
 			case 4:
 				sb.WriteString(rng.Pick(r, []string{"　", " ", " ", "\t"}))
 			case 5:
 				sb.WriteString("  ")
+			case 8:
+				sb.WriteString(rng.Pick(r, []string{"\u2028", "\u2029", "\u0085"})) // multi-byte line and paragraph separators
 			case 7:
 				sb.WriteString(rng.Pick(r, []string{"\n ", "\n  ", "\r\n "})) // breakable space right after an explicit line break
 			case 6:
